@@ -1,13 +1,14 @@
 import Autog.Driver
 
-partial def loop (h : IO.FS.Stream) (out : IO.FS.Stream) : IO Unit := do
+partial def loop (h : IO.FS.Stream) (out : IO.FS.Stream) (heavy : Bool) : IO Unit := do
   let line ← h.getLine
   if line.isEmpty then return ()
-  if line.trimAscii.isEmpty then loop h out else
-  out.putStrLn (Autog.processLine line)
-  loop h out
+  if line.trimAscii.isEmpty then loop h out heavy else
+  out.putStrLn (Autog.processLine line heavy)
+  loop h out heavy
 
-def main : IO Unit := do
+/-- `driver [light]`: with `light` the expensive whole-ordering-phase correspondence is skipped -/
+def main (args : List String) : IO Unit := do
   let out ← IO.getStdout
-  loop (← IO.getStdin) out
+  loop (← IO.getStdin) out (!args.contains "light")
   out.flush
